@@ -240,10 +240,14 @@ template <class F, class T> static void run_program (int prog, const std::vector
         std::string operand = jl (v, F::N);
         std::string sc = "[" + jl (&s, 1).substr (1);
         bool done = true;
+        // every fourth operand index: the operand IS the accumulator (a += a, a *= a): the destination aliases the source
+        bool self = (st.k % 4 == 3) && (st.op == "add" || st.op == "sub" || st.op == "mul");
+        if (self) { b = acc; T w[16]; F::named (acc, w); operand = jl (w, F::N); }
+        const A& rhs = self ? acc : b;
         if (st.op == "set") acc = b;
-        else if (st.op == "add") { if (st.sp == 0) acc = acc + b; else acc += b; }
-        else if (st.op == "sub") { if (st.sp == 0) acc = acc - b; else acc -= b; }
-        else if (st.op == "mul") { if (!(F::CAPS & CAP_VMUL)) done = false; vmul (acc, b, st.sp, std::integral_constant<bool, (F::CAPS & CAP_VMUL) != 0> ()); }
+        else if (st.op == "add") { if (st.sp == 0) acc = acc + rhs; else acc += rhs; }
+        else if (st.op == "sub") { if (st.sp == 0) acc = acc - rhs; else acc -= rhs; }
+        else if (st.op == "mul") { if (!(F::CAPS & CAP_VMUL)) done = false; vmul (acc, rhs, st.sp, std::integral_constant<bool, (F::CAPS & CAP_VMUL) != 0> ()); }
         else if (st.op == "div") { if (!(F::CAPS & CAP_VDIV)) done = false; vdiv (acc, b, st.sp, std::integral_constant<bool, (F::CAPS & CAP_VDIV) != 0> ()); }
         else if (st.op == "smul")
         {
